@@ -1,4 +1,5 @@
 import ExprModel.Proofs.LexLayoutToks4
+import ExprModel.Proofs.LexLayoutFloat
 import ExprModel.Proofs.ParserLocHom
 import ExprModel.Proofs.ParsePrintTop
 import ExprModel.Proofs.ParserFuel
